@@ -50,11 +50,28 @@ def run(prog):
     if len(cands) != 1:
         raise CheckerError("TF: expected one filter predicate in SATSolver::new, found %d" % len(cands))
     c = cands[0]
+    # the predicate may delegate to a private helper (`|clause| !has_complementary_pair(clause)`): read the helper
+    for _ in range(2):
+        r0 = strip(c.terms.ret) if c.terms.ret is not None else None
+        while isinstance(r0, tuple) and r0 and r0[0] == "un" and r0[1] == "Not":
+            r0 = strip(r0[2])
+        if isinstance(r0, tuple) and r0 and r0[0] == "call" and (r0[1].local or getattr(r0[1], "res_local", False)) and \
+                r0[1].name not in ("label", "polarity", "implies_false", "implies_true", "negated"):
+            hs = [h for h in prog.resolve(r0[1]) if h.kind != "Closure"]
+            if len(hs) == 1:
+                c = hs[0]
+                continue
+        break
     te = c.terms
     nested = [g for g in prog.lib_fns if g.npath.startswith(c.npath + "::{closure")]
     names = [cs.callee.name for g in [c] + nested for cs in g.terms.calls]
-    has_cmp = ("label" in names) and ("polarity" in names)
+    # a comparison of two literals of the clause: label == label && polarity != polarity, or the Literal methods that say
+    # the same (their definitions are rule LP's business)
+    has_cmp = (("label" in names) and ("polarity" in names)) or ("implies_false" in names) or ("negated" in names)
     if not has_cmp:
+        local_calls = [cs.callee.name for g in [c] + nested for cs in g.terms.calls if cs.callee.local or getattr(cs.callee, "res_local", False)]
+        if local_calls:
+            return [inst("TF", key, UNDECIDED, c, None, "? the clause filter delegates to %s; no literal comparison found" % sorted(set(local_calls))[:4])]
         return [inst("TF", key, VIOLATION, c, None,
                      "the clause filter no longer compares labels and polarities of the clause's literals: tautological "
                      "clauses are kept and counted, so the satisfied flag waits for them")]
